@@ -22,7 +22,7 @@ import (
 	"verif/internal/model"
 )
 
-const rule = "cases (a): LeaseSet2 values (model-encoded, parsed; every identity type, 1..16 keys, 1..16 leases, options, offline blocks), recipient X25519 key pairs and cookies derived from seeds; per case every single byte position of the ciphertext (ephemeral key, nonce, body, tag) x {xor 0x01, xor 0x80, xor a drawn non-zero value}, truncation by 1 and extension by 1, and a private key whose public key differs. cases (b): (destination with an Ed25519 or RedDSA key that is a real curve point, secret of 32..64 bytes, instant) with instants drawn around UTC midnights +-1 s / +-1 ns between 1970 and 2200 and expressed in locations UTC-14h..+14h. Oracles: decrypt(encrypt(x)).Bytes() = x.Bytes(), again on a second call with the same key object, the caller's key and cookie unchanged; any modified byte, changed length or different key => error and nil value; CreateBlindedDestination equal for two instants iff same UTC calendar day (own civil-date computation), independent of location; output keeps encryption key, padding and certificate and differs in the signing key; VerifyBlindedSignature true with the factor derived for that secret and day (also for both destinations re-read from their bytes), false for another day, another secret, and other factors (derived + k*L for every k that fits 32 bytes, single-bit differences at 39 positions per case, zero, L). Non-trivial: every case (each carries hundreds of modified ciphertexts); distinct by (plaintext, keys) / (destination, secret, instant)."
+const rule = "cases (a): LeaseSet2 values (model-encoded, parsed; one in twenty of 20..60 KB, one in eight without leases; every identity type, 1..16 keys, 1..16 leases, options, offline blocks), recipient X25519 key pairs and cookies derived from seeds; per case every single byte position of the ciphertext (ephemeral key, nonce, body, tag) x {xor 0x01, xor 0x80, xor a drawn non-zero value}, truncation by 1 and extension by 1, and a private key whose public key differs. cases (b): (destination with an Ed25519 or RedDSA key that is a real curve point, secret of 32..64 bytes, instant) with instants drawn around UTC midnights +-1 s / +-1 ns between 1970 and 2200 and landmark instants (Go's zero time 0001-01-01, the epoch, 2^31, 2^32, year 9999) and expressed in locations UTC-14h..+14h. Oracles: decrypt(encrypt(x)).Bytes() = x.Bytes(), again on a second call with the same key object, the caller's key and cookie unchanged; any modified byte, changed length or different key => error and nil value; CreateBlindedDestination equal for two instants iff same UTC calendar day (own civil-date computation), independent of location; output keeps encryption key, padding and certificate and differs in the signing key; VerifyBlindedSignature true with the factor derived for that secret and day (also for both destinations re-read from their bytes), false for another day, another secret, and other factors (derived + k*L for every k that fits 32 bytes, single-bit differences at 39 positions per case, zero, L). Non-trivial: every case (each carries hundreds of modified ciphertexts); distinct by (plaintext, keys) / (destination, secret, instant)."
 
 func TestMain(m *testing.M) { ev.Main(m, "C16", rule) }
 
@@ -139,6 +139,9 @@ func checkEnc(c EncCase, r *ev.Rec) error {
 	xorVals := []byte{0x01, 0x80, byte(c.Xor%255 + 1)}
 	mod := make([]byte, len(ct))
 	for pos := 0; pos < len(ct); pos++ {
+		if len(ct) > 6000 && pos > 100 && pos < len(ct)-100 && pos%211 != 0 {
+			continue // large ciphertexts: both ends completely, every 211th byte in between
+		}
 		for _, x := range xorVals {
 			copy(mod, ct)
 			mod[pos] ^= x
@@ -187,6 +190,20 @@ var propEnc = &ev.Prop[EncCase]{Sub: "encrypt", Quick: 240, Thorough: 12000,
 		}
 		if rapid.IntRange(0, 7).Draw(t, "noleases") == 0 {
 			s.Leases = nil // a lease count of zero is a well-formed LeaseSet2 on the wire
+		}
+		if rapid.IntRange(0, 19).Draw(t, "big") == 0 {
+			// a LeaseSet2 of 20..60 KB (options mapping of 80..230 pairs of about 260 bytes): the
+			// ciphertext still fits the 16-bit inner length of an EncryptedLeaseSet
+			n := rapid.IntRange(80, 230).Draw(t, "bigpairs")
+			m := map[string]string{}
+			for i := 0; i < n; i++ {
+				m[fmt.Sprintf("k%03d.", i)+string(model.Fill(60, uint64(i)+1)[:1])] = string(model.Fill(190, uint64(i)+77))
+			}
+			s.Options = nil
+			for _, p := range model.PairsFromMap(m) {
+				s.Options = append(s.Options, [2]string{ev.H(p.K), ev.H(p.V)})
+			}
+			s.Keys, s.Leases = s.Keys[:1], s.Leases[:min(len(s.Leases), 1)]
 		}
 		if len(s.Keys) > 4 && rapid.IntRange(0, 3).Draw(t, "trimk") > 0 {
 			s.Keys = s.Keys[:2]
@@ -394,6 +411,14 @@ var propBlind = &ev.Prop[BlindCase]{Sub: "blind", Quick: 6000, Thorough: 300000,
 			c.Unix2 = 0
 		}
 		c.Zone2 = rapid.SampledFrom([]int{0, 14 * 3600, -14 * 3600, 3600}).Draw(t, "zone2")
+		// landmark instants: Go's zero time (0001-01-01), the epoch, the 32-bit limits, year 9999
+		if rapid.IntRange(0, 9).Draw(t, "landmark") == 0 {
+			c.Unix = rapid.SampledFrom([]int64{-62135596800, -62135596799, -62135510400, -1, 0, 1, 1<<31 - 1, 1 << 31, 1<<32 - 1, 1 << 32, 253402300799}).Draw(t, "landmarkunix")
+			c.Nanos = 0
+			if c.Unix < 0 {
+				c.ZoneSec = rapid.SampledFrom([]int{0, 3600, 7200}).Draw(t, "lmzone")
+			}
+		}
 		return c
 	}, Check: checkBlind}
 
